@@ -33,10 +33,12 @@ def check(ctx):
 
     # 2. the real code: replay of every TLC schedule, bounded DFS, random/PCT, free mode under -race
     results, trace_files = {}, []
+    renv, rdir = race_env(ctx, "free")
     def drive(binary, mode, extra):
         tf = ctx.path("traces-%s.ndjson" % mode)
         out = ctx.path("result-%s.json" % mode)
-        run_driver(ctx, [binary, "-mode", mode, "-cases", cases, "-traces", tf, "-out", out] + extra, timeout=3000)
+        run_driver(ctx, [binary, "-mode", mode, "-cases", cases, "-traces", tf, "-out", out] + extra, timeout=3000,
+                   env=renv if mode == "free" else None)
         results[mode] = load_result(out)
         trace_files.append(tf)
     drive(drv, "replay", [])
@@ -46,7 +48,7 @@ def check(ctx):
 
     # 3. TLC validates every distinct observable trace against the L1 contract
     recs, bad, vres = validate_traces(ctx, "parwork", "Trace_ParWork.tla", "Trace_ParWork.cfg", trace_files)
-    violations = []
+    violations = race_violations(rdir, "free runs of the unsubstituted par.Work")
     for idx, invs in sorted(bad.items()):
         rec = json.loads(recs[idx - 1])
         evs = " ".join("%s(%s,%s)" % (e["e"], e["r"], e["x"]) for e in rec["events"])
